@@ -63,6 +63,10 @@ var f11 = []rstmt{
 	eref("(a -> b)[*]: g", nil, P("a"), P("b"), false, true, -1, "label", "g"),
 	eref("(a -> b)[0].style.stroke: red", nil, P("a"), P("b"), false, true, 0, "stroke", "red"),
 	eref("(A -> B)[1]: u", nil, P("A"), P("B"), false, true, 1, "label", "u"),
+	// symmetric connections written from both ends: (a <-> b) and (b <-> a) are numbered separately
+	edge("b <-> a", nil, P("b"), P("a"), true, true, nil), edge("b -- a", nil, P("b"), P("a"), false, false, nil),
+	eref("(b <-> a)[0]: t", nil, P("b"), P("a"), true, true, 0, "label", "t"),
+	eref("(a <-> b)[1]: q", nil, P("a"), P("b"), true, true, 1, "label", "q"),
 	// references written underscore-relative from inside a container
 	edge("c.a -> b", nil, P("c", "a"), P("b"), false, true, nil),
 	within(eref("c: {(a -> _.b)[0]: null}", nil, P("c", "a"), P("b"), false, true, 0, "null", ""), "c"),
@@ -272,7 +276,7 @@ func init() {
 	})
 	eng.Register(&eng.Check{
 		ID: "C11", Level: "model_checking",
-		Rule: "every program of ≤3 (quick) / ≤4 (thorough) statements over the 21-statement connection fragment F11 (all four arrow directions, reversed endpoints, chains, nested and underscore-relative declarations, case variants, indexed label/style updates and deletions at indexes 0..2 and [*]), then reference-state-keyed BFS to depth 5 / 7; oracle: connections equal the indexed reference (per container, endpoints and direction: numbered 0.. in declaration order; an indexed statement changes exactly the connection it names; an index that names no live connection is a compile error), IDs of a board pairwise distinct, indexes consecutive",
+		Rule: "every program of ≤3 (quick) / ≤4 (thorough) statements over the 29-statement connection fragment F11 (all four arrow directions, reversed endpoints, symmetric connections written from both ends with indexed references, chains, nested and underscore-relative declarations, case variants, indexed label/style updates and deletions at indexes 0..2 and [*]), then reference-state-keyed BFS to depth 5 / 7; oracle: connections equal the indexed reference (per container, endpoints and direction: numbered 0.. in declaration order; an indexed statement changes exactly the connection it names; an index that names no live connection is a compile error), IDs of a board pairwise distinct, indexes consecutive",
 		Oracles: map[string]eng.Oracle{"ref": refOracle("C11")},
 		Run:     func(w *eng.W) { refRunSpace(w, texts(f11, "a -> b -> a"), w.Pick(3, 4), w.Pick(5, 6)) },
 	})
